@@ -24,6 +24,7 @@ func TestVerifC04(t *testing.T) {
 	explore.Main("C04", []explore.Part{
 		c04Part("send"),
 		c04Part("send-big"),
+		c04Part("send-rsa"),
 		c04Part("framer"),
 		c04Part("recv"),
 		c04Part("tune"),
@@ -36,6 +37,11 @@ func c04Config(name string, thorough bool) *c04Cfg {
 	switch name {
 	case "send":
 		c = &c04Cfg{mode: "send", cell: 10, sndS: 2, sndC: 3, rcvS: 4, rcvC: 6, maxS: 4, maxC: 6, depth: 6}
+		if thorough {
+			c.depth = 7
+		}
+	case "send-rsa":
+		c = &c04Cfg{mode: "send", rsa: true, cell: 10, sndS: 2, sndC: 3, rcvS: 4, rcvC: 6, maxS: 4, maxC: 6, depth: 6}
 		if thorough {
 			c.depth = 7
 		}
@@ -94,6 +100,9 @@ func c04Rule(c *c04Cfg) string {
 	}
 	switch c.mode {
 	case "send":
+		if c.rsa {
+			base += "peer negotiated RESET_STREAM_AT; alphabet of part send plus SetReliableBoundary (any time before the reset): after CancelWrite / STOP_SENDING the not yet sent reliable part is still new data and stays under the ledger; "
+		}
 		return base + "alphabet: Write(1|3 cells), popStreamFrame(budget = header+1 byte | header+1 cell | full packet), ack(oldest)/lose(any) of popped frames via their ackhandler.FrameHandler, MAX_STREAM_DATA / MAX_DATA(initial-1|+2 cells; thorough: initial-1|+1|+3 resp. +4) incl. stale/duplicate/reordered, Close, CancelWrite, STOP_SENDING; connection IsNewlyBlocked queried after every pop as framer.Append does; oracle: sender credit ledger"
 	case "sendbig":
 		return base + fmt.Sprintf("as part send (small Write: 1 cell only), plus Write(%d bytes) > frame buffer, run in a goroutine that stays blocked across operations until enough was popped; oracle: sender credit ledger", c.bigLen)
@@ -189,6 +198,9 @@ func (w *c04World) opsSend() []explore.Op {
 		}
 		if c.mode != "framer" && !w.cancelW[s] {
 			ops = append(ops, explore.Op{N: "cancelw", A: s}, explore.Op{N: "stop", A: s})
+			if c.rsa {
+				ops = append(ops, explore.Op{N: "boundary", A: s})
+			}
 		}
 	}
 	return ops
@@ -419,6 +431,9 @@ func (w *c04World) apply(op explore.Op) *explore.Fail {
 		w.applyLose(op.A)
 	case "closew":
 		w.applyCloseW(op.A)
+	case "boundary":
+		w.ss[op.A].SetReliableBoundary()
+		w.outcome = "boundary"
 	case "cancelw":
 		w.applyCancelW(op.A)
 	case "stop":
